@@ -12,6 +12,10 @@ claimed = {
          "Structural necessary conditions, each decided exactly; under the stated library contracts they compose to the round-trip argument of DESIGN 3.C03. Not a proof of the library calls themselves."),
  "C06": ("proof", AI + " on a universe exhaustive by data independence: complete decision tables with callee oracles; loop-shape check for induction over list length", "3.C06",
          "Complete decision tables of Is/IsWildcard/Matches/GetPossibilities/GetAllPossibilities/GetSubstvars/SatisfiedBy against the property's specification, exhaustive up to renaming."),
+ "C11": ("other", "SSA dominance and dataflow rules over canonical terms on the clear-sign decoder (must-pass-through of a checked verification, same-block provenance of verified and parsed bytes, who-writes on the signer field, error propagation)", "3.C11",
+         "Exactly the wrapper obligations that turn openpgp.CheckDetachedSignature's guarantee into the property are decided; the OpenPGP library is trusted."),
+ "C12": ("other", AI + " of GetHash / Verifier / the hashing constructors / verifier.Close with opaque hash objects and interpreted package initialisers; type-level field/algorithm table; term rules on Hasher", "3.C12",
+         "Algorithm tables (incl. freshness of hash objects), verifier algorithm choice for every name x hash length, fan-out wiring, byte counting and Close verdict are decided; the digests themselves are the standard library's."),
  "C13": ("other", AI + " of LoadAr / Ar.Next / the header parser on a symbolic 60 byte header (opaque byte tokens, symbolic sizes, linear offsets)", "3.C13",
          "Column provenance of every entry field, name trimming, member reader placement, offset arithmetic, freshness, global and header magic, short reads are decided for every header; byte equality of the delivered data rests on io.SectionReader."),
  "C14": ("other", "SSA dominance rules over canonical terms, decompressor table extraction from the package initialiser, error-discipline and map-order dataflow rules, " + AI + " of IsTarfile", "3.C14",
